@@ -44,6 +44,7 @@ fn main() {
         "placement" => crash::placement(&args, &mut sink),
         "flock" => flock::run(&args, &mut sink),
         "stress" => stress::run(&args, &mut sink),
+        "locks-scenarios" => locksdemo::scenarios(&mut sink),
         "alloc-freelist" => alloc::run_freelist(seed, cases, &mut sink),
         "alloc-probe" => alloc::run_probe(seed, cases, &mut sink),
         "alloc-lookup" => alloc::run_lookup(seed, cases, &mut sink),
